@@ -12,6 +12,7 @@ import (
 	"encoding/json"
 	"fmt"
 	"os"
+	"sort"
 	"strings"
 
 	"github.com/99designs/gqlgen/codegen/config"
@@ -19,12 +20,16 @@ import (
 	"github.com/99designs/gqlgen/plugin/federation/fieldset"
 	"github.com/vektah/gqlparser/v2"
 	"github.com/vektah/gqlparser/v2/ast"
+	"github.com/vektah/gqlparser/v2/parser"
 
 	"verifharness/internal/rng"
 )
 
 type TableRow struct {
-	Kind    string    `json:"kind"` // table | fieldset
+	Kind    string    `json:"kind"` // table | schema | fieldset
+	Version int       `json:"version,omitempty"`
+	Schema  string    `json:"schema,omitempty"` // kind schema: the generated schema text
+	Facts   []EntFact `json:"facts,omitempty"`  // kind schema: what the text says about each entity type (for the direct Spec)
 	Variant string    `json:"variant,omitempty"`
 	Real    []EntityJ `json:"real,omitempty"`
 	Derived []EntityJ `json:"derived,omitempty"`
@@ -34,16 +39,12 @@ type TableRow struct {
 	Panic   string    `json:"panic,omitempty"`
 }
 
-func realTable(v Variant, probes string) (ents []EntityJ, err error) {
+func realTable(v Variant, src string) (ents []EntityJ, err error) {
 	defer func() {
 		if r := recover(); r != nil {
 			err = fmt.Errorf("plugin panicked: %v", r)
 		}
 	}()
-	src, rerr := os.ReadFile(v.schemaFile(probes))
-	if rerr != nil {
-		return nil, rerr
-	}
 	cfg := config.DefaultConfig()
 	cfg.Federation.Version = v.Version
 	f, ferr := federation.New(v.Version, cfg)
@@ -52,7 +53,7 @@ func realTable(v Variant, probes string) (ents []EntityJ, err error) {
 	}
 	early, _ := f.InjectSourcesEarly()
 	sources := append([]*ast.Source{}, early...)
-	sources = append(sources, &ast.Source{Name: "schema.graphql", Input: string(src)})
+	sources = append(sources, &ast.Source{Name: "schema.graphql", Input: src})
 	schema, gerr := gqlparser.LoadSchema(sources...)
 	if gerr != nil {
 		return nil, gerr
@@ -137,12 +138,38 @@ func runTable(probes string, seed uint64, tier string) {
 	enc := json.NewEncoder(os.Stdout)
 	enc.SetEscapeHTML(false)
 	for _, v := range variants {
-		real, err := realTable(v, probes)
+		real, err := realTable(v, probeSrc(v, probes))
 		row := TableRow{Kind: "table", Variant: v.Name, Real: real, Derived: buildConfig(v, probes).Entities}
 		if err != nil {
 			row.Panic = err.Error()
 		}
 		enc.Encode(row)
+	}
+	// the schema-shape dimension: which entity types get resolvers at all (and which) is decided by the plugin from
+	// @key(resolvable:), @external, the federation version and the key field sets - directed shapes, then random ones
+	rs := rng.New(seed ^ 0x5C4E3A)
+	ns := 160
+	if tier == "thorough" {
+		ns = 2500
+	}
+	emitSchema := func(version int, src string) {
+		v := Variant{Name: fmt.Sprintf("schema-v%d", version), Version: version}
+		real, err := realTable(v, src)
+		row := TableRow{Kind: "schema", Variant: v.Name, Version: version, Schema: src, Real: real,
+			Derived: buildConfigSrc(v, src).Entities, Facts: schemaFacts(src)}
+		if err != nil {
+			row.Panic = err.Error()
+		}
+		enc.Encode(row)
+	}
+	for _, version := range []int{1, 2} {
+		for _, src := range directedSchemas(version) {
+			emitSchema(version, src)
+		}
+	}
+	for i := 0; i < ns; i++ {
+		version := 1 + i%2
+		emitSchema(version, genSchema(rs, version))
 	}
 	r := rng.New(seed ^ 0xF5E7)
 	n := 400
@@ -176,4 +203,215 @@ func runTable(probes string, seed uint64, tier string) {
 		t := genTree(r, 0)
 		one(printTree(r, t), treePaths(t, nil))
 	}
+}
+
+// ---- generated entity schemas (the schema-shape dimension of the "configurations" quantifier)
+
+// EntFact is what the schema TEXT says about one entity type, in the terms of the direct Spec: an entity type
+// that is resolvable (no @key says `resolvable: false`) and has a field of its own (not @external) must have one
+// entity resolver per @key - otherwise every representation of it is answered null, "unknown type"; a type whose
+// fields are all explicitly @external has none.
+type EntFact struct {
+	Name             string `json:"name"`
+	Keys             int    `json:"keys"`
+	AnyResolvableOff bool   `json:"anyResolvableOff"` // some @key carries resolvable: false
+	ResolvableArgs   int    `json:"resolvableArgs"`   // @key directives with an explicit resolvable: argument
+	OwnField         bool   `json:"ownField"`         // some field without @external
+	KeyOnly          bool   `json:"keyOnly"`          // every field is a (top-level) field of the first @key
+}
+
+func schemaFacts(src string) []EntFact {
+	doc, perr := parser.ParseSchema(&ast.Source{Name: "schema.graphql", Input: src})
+	if perr != nil {
+		die(perr)
+	}
+	var out []EntFact
+	for _, def := range doc.Definitions {
+		if def.Kind != ast.Object {
+			continue
+		}
+		f := EntFact{Name: def.Name, KeyOnly: true}
+		first := map[string]bool{}
+		for _, d := range def.Directives {
+			if d.Name != "key" {
+				continue
+			}
+			f.Keys++
+			if a := dirArg(d, "resolvable"); a != nil {
+				f.ResolvableArgs++
+				if a.Value.Raw == "false" {
+					f.AnyResolvableOff = true
+				}
+			}
+			if f.Keys == 1 {
+				for _, p := range parseFieldSet(dirArg(d, "fields").Value.Raw) {
+					first[p[0]] = true
+				}
+			}
+		}
+		if f.Keys == 0 {
+			continue
+		}
+		for _, fd := range def.Fields {
+			if fd.Directives.ForName("external") == nil {
+				f.OwnField = true
+			}
+			if !first[fd.Name] {
+				f.KeyOnly = false
+			}
+		}
+		out = append(out, f)
+	}
+	sort.Slice(out, func(i, j int) bool { return out[i].Name < out[j].Name })
+	return out
+}
+
+const schemaHead = "directive @entityResolver(multi: Boolean) on OBJECT\n\ntype Query {\n  ping: String\n}\n\ntype Org {\n  id: ID!\n  name: String\n}\n"
+
+type gField struct {
+	name, typ string
+	nested    bool // selected as `name { id }` in a key
+}
+
+var keyPool = []gField{{"id", "ID!", false}, {"code", "String", false}, {"num", "Int!", false}, {"sku", "String!", false}, {"org", "Org!", true}}
+var extraPool = []gField{{"tag", "String!", false}, {"note", "String", false}, {"weight", "Int", false}}
+
+func keyArgsText(r *rng.R, fields string, resolvable string) string {
+	f := fmt.Sprintf("fields: %q", fields)
+	switch {
+	case resolvable == "":
+		return f
+	case r != nil && r.Below(3) == 0:
+		return "resolvable: " + resolvable + ", " + f
+	default:
+		return f + ", resolvable: " + resolvable
+	}
+}
+
+// genSchema prints 1-4 entity types: 1-3 @key directives over a subset of the key-capable fields (flat and
+// nested), each - federation 2 - without `resolvable:`, with `resolvable: true` or `resolvable: false` (either
+// argument order); every field @external or not; 0-2 fields outside the keys; single or batch resolvers; a
+// @requires field when an external scalar exists.
+func genSchema(r *rng.R, version int) string {
+	var b strings.Builder
+	b.WriteString(schemaHead)
+	n := 1 + r.Below(4)
+	for t := 0; t < n; t++ {
+		// key-capable fields of this type
+		var kf []gField
+		for _, f := range keyPool {
+			if r.Below(2) == 0 {
+				kf = append(kf, f)
+			}
+		}
+		if len(kf) == 0 {
+			kf = append(kf, keyPool[r.Below(len(keyPool))])
+		}
+		nk := 1 + r.Below(3)
+		seenKey := map[string]bool{}
+		var keys []string
+		for k := 0; k < nk; k++ {
+			var parts []string
+			for _, f := range kf {
+				if r.Below(2) == 0 {
+					if f.nested {
+						parts = append(parts, f.name+" { id }")
+					} else {
+						parts = append(parts, f.name)
+					}
+				}
+			}
+			if len(parts) == 0 {
+				f := kf[r.Below(len(kf))]
+				if f.nested {
+					parts = []string{f.name + " { id }"}
+				} else {
+					parts = []string{f.name}
+				}
+			}
+			fs := strings.Join(parts, " ")
+			if seenKey[fs] {
+				continue
+			}
+			seenKey[fs] = true
+			res := ""
+			if version == 2 {
+				res = []string{"", "", "true", "false"}[r.Below(4)]
+			}
+			keys = append(keys, "@key("+keyArgsText(r, fs, res)+")")
+		}
+		// how external the type is: 0 nothing, 1 random fields, 2 every key-capable field, 3 everything
+		extMode := []int{0, 0, 1, 1, 2, 3}[r.Below(6)]
+		var extras []gField
+		switch r.Below(4) {
+		case 0:
+		case 1, 2:
+			extras = append(extras, extraPool[r.Below(len(extraPool))])
+		default:
+			extras = append(extras, extraPool[0], extraPool[1+r.Below(2)])
+		}
+		fmt.Fprintf(&b, "\ntype E%d %s", t, strings.Join(keys, " "))
+		if r.Below(4) == 0 {
+			b.WriteString(" @entityResolver(multi: true)")
+		}
+		b.WriteString(" {\n")
+		extScalar := ""
+		line := func(f gField, isKey bool) {
+			ext := false
+			switch extMode {
+			case 1:
+				ext = r.Below(3) == 0
+			case 2:
+				ext = isKey
+			case 3:
+				ext = true
+			}
+			if ext {
+				fmt.Fprintf(&b, "  %s: %s @external\n", f.name, f.typ)
+				if !isKey && !f.nested && extScalar == "" {
+					extScalar = f.name
+				}
+			} else {
+				fmt.Fprintf(&b, "  %s: %s\n", f.name, f.typ)
+			}
+		}
+		for _, f := range kf {
+			line(f, true)
+		}
+		for _, f := range extras {
+			line(f, false)
+		}
+		if extScalar != "" && extMode != 3 && r.Below(2) == 0 {
+			fmt.Fprintf(&b, "  derived: String @requires(fields: %q)\n", extScalar)
+		}
+		b.WriteString("}\n")
+	}
+	return b.String()
+}
+
+// directedSchemas: the corners of the same dimension, one type each, kept fixed.
+func directedSchemas(version int) []string {
+	ty := func(name, dirs, body string) string {
+		return "\ntype " + name + " " + dirs + " {\n" + body + "}\n"
+	}
+	s := schemaHead +
+		ty("KeyOnly", `@key(fields: "id")`, "  id: ID!\n") +
+		ty("KeyOnlyTwo", `@key(fields: "id sku") @key(fields: "sku")`, "  id: ID!\n  sku: String!\n") +
+		ty("KeyOnlyNested", `@key(fields: "org { id }")`, "  org: Org!\n") +
+		ty("KeyOnlyMulti", `@key(fields: "id") @entityResolver(multi: true)`, "  id: ID!\n") +
+		ty("KeyPlusOwn", `@key(fields: "id")`, "  id: ID!\n  tag: String!\n") +
+		ty("ExtKeyOwn", `@key(fields: "id")`, "  id: ID! @external\n  tag: String!\n") +
+		ty("AllExt", `@key(fields: "id")`, "  id: ID! @external\n  note: String @external\n")
+	out := []string{s}
+	if version == 2 {
+		out = append(out, schemaHead+
+			ty("KeyOnlyOn", `@key(fields: "id", resolvable: true)`, "  id: ID!\n")+
+			ty("KeyOnlyOnRev", `@key(resolvable: true, fields: "id")`, "  id: ID!\n")+
+			ty("KeyOnlyOff", `@key(fields: "id", resolvable: false)`, "  id: ID!\n")+
+			ty("OffPlusOwn", `@key(fields: "id", resolvable: false)`, "  id: ID!\n  tag: String!\n")+
+			ty("OffThenOn", `@key(fields: "id", resolvable: false) @key(fields: "sku")`, "  id: ID!\n  sku: String!\n")+
+			ty("OnThenOff", `@key(fields: "id") @key(fields: "sku", resolvable: false)`, "  id: ID!\n  sku: String!\n")+
+			ty("OffExtRest", `@key(fields: "id", resolvable: false)`, "  id: ID!\n  note: String @external\n"))
+	}
+	return out
 }
